@@ -62,179 +62,38 @@ def spec (p : Nat) : Printed :=
   let t := p * 10 ^ k / sc                -- ⌊value · 10^k⌋
   ⟨ip, stripZ (digitsK k (t % 10 ^ k)), u⟩
 
-/-! ### digit-list lemmas -/
+/-! ### rendering (shared by model and spec: nothing is proved about `Nat.repr`) -/
+def U.suffix : U → String
+  | .ns => "ns" | .us => "µs" | .ms => "ms" | .s => "s" | .m => "m" | .h => "h" | .d => "d"
 
-theorem stripZ_take (L : List Nat) : ∀ k,
-    (if (stripZ L).length < k then stripZ L else stripZ ((stripZ L).take k)) = stripZ (L.take k) := by
-  induction L with
-  | nil => intro k; simp [stripZ]
-  | cons x xs ih =>
-    intro k
-    cases k with
-    | zero => simp [stripZ]
-    | succ k' =>
-      have ih' := ih k'
-      simp only [List.take_succ_cons, stripZ]
-      by_cases hz : stripZ xs = [] ∧ x = 0
-      · -- everything from here on is zeros
-        simp only [hz, and_self, if_true]
-        have : stripZ (List.take k' xs) = [] := by
-          rw [← ih', hz.1]; simp [stripZ]
-        simp [this, stripZ]
-      · simp only [hz, if_false]
-        by_cases hl : (stripZ xs).length < k'
-        · have e : stripZ (List.take k' xs) = stripZ xs := by rw [← ih']; simp [hl]
-          have hl' : (x :: stripZ xs).length < k' + 1 := by simp; omega
-          simp only [hl', if_true, e, hz, if_false]
-        · have e : stripZ (List.take k' xs) = stripZ ((stripZ xs).take k') := by rw [← ih']; simp [hl]
-          have hl' : ¬ (x :: stripZ xs).length < k' + 1 := by simp; omega
-          simp only [hl', if_false, List.take_succ_cons, stripZ, e]
+def digitChar (d : Nat) : Char := Char.ofNat (d + 48)
 
-theorem digits4_take1 (x : Nat) (_h : x < 10000) : (digits4 x).take 1 = digitsK 1 (x / 1000) := by
-  simp [digits4, digitsK]
-theorem digits4_take2 (x : Nat) (_h : x < 10000) : (digits4 x).take 2 = digitsK 2 (x / 100) := by
-  simp [digits4, digitsK]; omega
-theorem digits4_take3 (x : Nat) (_h : x < 10000) : (digits4 x).take 3 = digitsK 3 (x / 10) := by
-  simp [digits4, digitsK]; omega
+def Printed.render (p : Printed) : String :=
+  toString p.ip ++ (if p.frac = [] then "" else "." ++ String.ofList (p.frac.map digitChar)) ++ " " ++ p.unit.suffix
 
-/-! ### arithmetic: nested truncation -/
-theorem ip_eq (p sc : Nat) (hsc : 0 < sc) : p * 10000 / sc / 10000 = p / sc := by
-  rw [Nat.div_div_eq_div_mul, Nat.mul_comm sc 10000, Nat.mul_comm p 10000]
-  exact Nat.mul_div_mul_left _ _ (by omega)
+/-! ### `format_f64` as string surgery on the decimal text Rust's `f64::to_string` produced -/
 
-/-- ⌊⌊p·10^4/sc⌋ / j⌋ = ⌊p·k/sc⌋ when k·j = 10^4 -/
-theorem trunc_eq (p sc k j : Nat) (hj : 0 < j) (hkj : k * j = 10000) :
-    p * 10000 / sc / j = p * k / sc := by
-  rw [Nat.div_div_eq_div_mul, ← hkj, ← Nat.mul_assoc]
-  exact Nat.mul_div_mul_right _ _ hj
+def idxOfDot : List Char → Option Nat
+  | [] => none
+  | c :: cs => if c = '.' then some 0 else (idxOfDot cs).map (· + 1)
 
-/-- fractional digits: (N / j) % k = (N % 10^4) / j when k·j = 10^4 -/
-theorem frac_eq (N k j : Nat) (hkj : k * j = 10000) : N / j % k = N % 10000 / j := by
-  rw [← hkj]; exact (Nat.mod_mul_left_div_self N j k).symm
+/-- number of trailing `'0'` characters -/
+def trailingZeros (l : List Char) : Nat := (l.reverse.takeWhile (· = '0')).length
 
+/-- `util::fmt::format_f64(val, sig)` where `s = val.to_string()` -/
+def formatDecimal (s : List Char) (sig : Nat) : List Char :=
+  match idxOfDot s with
+  | none => s
+  | some dot =>
+    let fd := sig - dot                       -- `sig_figs.saturating_sub(dot_index)`
+    if fd = 0 then s.take dot else
+    let fs := dot + 1
+    let fe := fs + fd
+    if fe ≤ s.length then                     -- `str.get(fract_range)` is `Some`
+      let fract := (s.drop fs).take fd
+      let tz := trailingZeros fract
+      if tz = fract.length then s.take dot    -- all zeros: cut at the point
+      else s.take (fe - tz)
+    else s
 
-/-- what `format_f64` leaves of the fractional digits = the first k digits without trailing zeros -/
-theorem model_frac (L : List Nat) (k : Nat) :
-    (if stripZ L = [] then ([] : List Nat) else if k = 0 then [] else
-      if (stripZ L).length < k then stripZ L else stripZ ((stripZ L).take k)) = stripZ (L.take k) := by
-  have h := stripZ_take L k
-  by_cases hk : k = 0
-  · subst hk; simp [stripZ]
-  · by_cases he : stripZ L = []
-    · simp only [he, if_true]
-      rw [he] at h; simp at h
-      have : 0 < k := by omega
-      simp [this] at h; exact h.symm
-    · simp only [he, hk, if_false]; exact h
-
-/-- the spec's k fractional digits are the first k of the four digits the code computes -/
-theorem spec_frac (p sc k : Nat) (hk : k = 1 ∨ k = 2 ∨ k = 3) :
-    digitsK k (p * 10 ^ k / sc % 10 ^ k) = (digits4 (p * 10000 / sc % 10000)).take k := by
-  have hlt : p * 10000 / sc % 10000 < 10000 := Nat.mod_lt _ (by omega)
-  rcases hk with rfl | rfl | rfl
-  · rw [digits4_take1 _ hlt, ← frac_eq (p * 10000 / sc) 10 1000 (by omega),
-        trunc_eq p sc 10 1000 (by omega) (by omega)]
-  · rw [digits4_take2 _ hlt, ← frac_eq (p * 10000 / sc) 100 100 (by omega),
-        trunc_eq p sc 100 100 (by omega) (by omega)]
-  · rw [digits4_take3 _ hlt, ← frac_eq (p * 10000 / sc) 1000 10 (by omega),
-        trunc_eq p sc 1000 10 (by omega) (by omega)]
-
-theorem numDigits_range (n : Nat) : 1 ≤ numDigits n ∧ numDigits n ≤ 5 := by
-  unfold numDigits; repeat' (first | omega | split)
-
-/-- core of the theorem, for a fixed unit/scale: model and spec agree on the float path -/
-theorem core (p sc : Nat) (u : U) (hsc : 0 < sc) :
-    (let N := p * 10000 / sc
-     let ip := N / 10000
-     let fs := stripZ (digits4 (N % 10000))
-     if fs = [] then (⟨ip, [], u⟩ : Printed) else
-     let k := 4 - numDigits ip
-     if k = 0 then ⟨ip, [], u⟩ else
-     if fs.length < k then ⟨ip, fs, u⟩ else ⟨ip, stripZ (fs.take k), u⟩)
-    = ⟨p / sc, stripZ (digitsK (4 - numDigits (p / sc)) (p * 10 ^ (4 - numDigits (p / sc)) / sc % 10 ^ (4 - numDigits (p / sc)))), u⟩ := by
-  simp only [ip_eq p sc hsc]
-  have hr := numDigits_range (p / sc)
-  have hm := model_frac (digits4 (p * 10000 / sc % 10000)) (4 - numDigits (p / sc))
-  -- rewrite the right-hand side's digits
-  have hrhs : stripZ (digitsK (4 - numDigits (p / sc)) (p * 10 ^ (4 - numDigits (p / sc)) / sc % 10 ^ (4 - numDigits (p / sc))))
-      = stripZ ((digits4 (p * 10000 / sc % 10000)).take (4 - numDigits (p / sc))) := by
-    by_cases hk0 : 4 - numDigits (p / sc) = 0
-    · rw [hk0]; simp [digitsK, stripZ]
-    · rw [spec_frac p sc _ (by omega)]
-  rw [hrhs, ← hm]
-  by_cases h1 : stripZ (digits4 (p * 10000 / sc % 10000)) = []
-  · simp [h1]
-  · by_cases h2 : 4 - numDigits (p / sc) = 0
-    · simp [h1, h2]
-    · by_cases h3 : (stripZ (digits4 (p * 10000 / sc % 10000))).length < 4 - numDigits (p / sc)
-      · simp [h1, h2, h3]
-      · simp [h1, h2, h3]
-
-theorem unitOf_pos (p : Nat) : 0 < (unitOf p).2 := by
-  unfold unitOf
-  by_cases h1 : p < US
-  · simp only [h1, if_true]; simp [NS]
-  by_cases h2 : p < MS
-  · simp only [h1, h2, if_true, if_false]; simp [US]
-  by_cases h3 : p < SEC
-  · simp only [h1, h2, h3, if_true, if_false]; simp [MS]
-  by_cases h4 : p < MIN
-  · simp only [h1, h2, h3, h4, if_true, if_false]; simp [SEC]
-  by_cases h5 : p < HOUR
-  · simp only [h1, h2, h3, h4, h5, if_true, if_false]; simp [MIN]
-  by_cases h6 : p < DAY
-  · simp only [h1, h2, h3, h4, h5, h6, if_true, if_false]; simp [HOUR]
-  · simp only [h1, h2, h3, h4, h5, h6, if_false]; simp [DAY]
-
-/-- C18: the unit is the largest one not exceeding the value (values below 1 ns are shown in ns). -/
-theorem unit_is_largest (p : Nat) :
-    (unitOf p).2 ≤ p ∨ (p < NS ∧ unitOf p = (.ns, NS)) := by
-  unfold unitOf
-  by_cases h1 : p < US
-  · simp only [h1, if_true]
-    by_cases h0 : p < NS
-    · right; exact ⟨h0, trivial⟩
-    · left; simp only [NS] at h0 ⊢; omega
-  by_cases h2 : p < MS
-  · left; simp only [h1, h2, if_true, if_false]; simp only [US] at h1 ⊢; omega
-  by_cases h3 : p < SEC
-  · left; simp only [h1, h2, h3, if_true, if_false]; simp only [MS] at h2 ⊢; omega
-  by_cases h4 : p < MIN
-  · left; simp only [h1, h2, h3, h4, if_true, if_false]; simp only [SEC] at h3 ⊢; omega
-  by_cases h5 : p < HOUR
-  · left; simp only [h1, h2, h3, h4, h5, if_true, if_false]; simp only [MIN] at h4 ⊢; omega
-  by_cases h6 : p < DAY
-  · left; simp only [h1, h2, h3, h4, h5, h6, if_true, if_false]; simp only [HOUR] at h5 ⊢; omega
-  · left; simp only [h1, h2, h3, h4, h5, h6, if_false]; omega
-
-/-- C18: for **every** picosecond value the printed duration is the truthful truncation. -/
-theorem fmt_eq_spec (p : Nat) : fmt p = spec p := by
-  unfold fmt spec
-  by_cases hbig : p ≥ DAY * 10000
-  · -- integer-days branch
-    have hu : unitOf p = (.d, DAY) := by
-      simp only [DAY] at hbig
-      have h1 : ¬ p < US := by simp only [US]; omega
-      have h2 : ¬ p < MS := by simp only [MS]; omega
-      have h3 : ¬ p < SEC := by simp only [SEC]; omega
-      have h4 : ¬ p < MIN := by simp only [MIN]; omega
-      have h5 : ¬ p < HOUR := by simp only [HOUR]; omega
-      have h6 : ¬ p < DAY := by simp only [DAY]; omega
-      simp only [unitOf, h1, h2, h3, h4, h5, h6, if_false]
-    have hip : 10000 ≤ p / DAY := by
-      rw [Nat.le_div_iff_mul_le (by simp [DAY])]; rw [Nat.mul_comm]; exact hbig
-    have hd : numDigits (p / DAY) = 5 := by
-      unfold numDigits; repeat' (first | omega | split)
-    simp only [hu, hbig, if_true, hd]
-    simp [digitsK, stripZ]
-  · simp only [hbig, if_false]
-    -- float path: split on the unit
-    have hsc : 0 < (unitOf p).2 := unitOf_pos p
-    have := core p (unitOf p).2 (unitOf p).1 hsc
-    cases hu : unitOf p with
-    | mk u sc =>
-      rw [hu] at this
-      simpa using this
-
-#eval (fmt 1234567, spec 1234567, fmt 59999000000000, fmt 1, fmt 0, fmt 100200000)
 end Fmt
